@@ -63,6 +63,14 @@ def _sleepers_worker(spec):
                         before[d.id] = (d, len(d._history), int(d.metaepoch_count), int(d.n_evaluations), len(d.history))
                 tree.run_step()
                 steps += 1
+                if steps == 3 and not found:
+                    import copy
+
+                    twin = copy.deepcopy(tree)
+                    a = {d.id: bool(d._hibernating) for _, d in tree.all_demes}
+                    b = {d.id: bool(d._hibernating) for _, d in twin.all_demes}
+                    if a != b:
+                        found.append(f"metaepoch {steps}: a deep copy of the tree has other hibernation flags than the tree ({[k for k in a if a[k] != b.get(k)]} differ): a copy of a sleeping deme is awake")
                 for did, (d, nh, mc, ne, ng) in before.items():
                     slept += 1
                     now = (len(d._history), int(d.metaepoch_count), int(d.n_evaluations), len(d.history))
